@@ -1500,16 +1500,10 @@ class _AssociationList(_AssociationSingleItem[_T], MutableSequence[_T]):
         if not isinstance(index, slice):
             self._set(self.col[index], cast("_T", value))
         else:
-            if index.stop is None:
-                stop = len(self)
-            elif index.stop < 0:
-                stop = len(self) + index.stop
-            else:
-                stop = index.stop
-            step = index.step or 1
-
-            start = index.start or 0
-            rng = list(range(index.start or 0, stop, step))
+            # plain-list semantics: negative bounds count from the end,
+            # out-of-range bounds are clamped
+            start, stop, step = index.indices(len(self))
+            rng = list(range(start, stop, step))
 
             sized_value = list(value)
 
@@ -1527,7 +1521,7 @@ class _AssociationList(_AssociationSingleItem[_T], MutableSequence[_T]):
                         "extended slice of size %s"
                         % (len(sized_value), len(rng))
                     )
-                for i, item in zip(rng, value):
+                for i, item in zip(rng, sized_value):
                     self._set(self.col[i], item)
 
     @overload
@@ -1653,7 +1647,7 @@ class _AssociationList(_AssociationSingleItem[_T], MutableSequence[_T]):
         # is more plausibly useful than copying the backing objects.
         if not isinstance(n, int):
             raise NotImplementedError()
-        if n == 0:
+        if n <= 0:
             self.clear()
         elif n > 1:
             self.extend(list(self) * (n - 1))
@@ -1784,7 +1778,10 @@ class _AssociationDict(_AssociationCollection[_VT], MutableMapping[_KT, _VT]):
     ) -> Union[_VT, _T]: ...
 
     def pop(self, __key: _KT, /, *arg: Any, **kw: Any) -> Union[_VT, _T]:
-        member = self.col.pop(__key, *arg, **kw)
+        if (arg or kw) and __key not in self.col:
+            # the builtin hands back the default as it is
+            return self.col.pop(__key, *arg, **kw)
+        member = self.col.pop(__key)
         return self._get(member)
 
     def popitem(self) -> Tuple[_KT, _VT]:
